@@ -475,6 +475,19 @@ def run_overrides(ctx, n, snap, targets):
     rng = ctx.rng
     names = [t[0] for t in targets]
     by = dict(targets)
+    # one field of one class overridden through both of the grader's reports, in either order, and each report cleared first once:
+    # every such history, for an own and for an inherited field (not left to the luck of the random ones below)
+    for cname, field, v1, v2 in (('verif_child', 'valence', -1, 1), ('verif_child', 'title', 'Overridden title', 'Another'), ('runtime_error', 'priority', 'syntax', 'high'),
+                                 ('verif_grandchild', 'muted', True, False), ('Feedback', 'priority', 'low', 'high')):
+        if cname not in by:
+            continue
+        for first_other in (False, True):
+            for clear_other_first in (False, True):
+                a = ('override', cname, {field: v1}) + (('other-report',) if first_other else ())
+                b = ('override', cname, {field: v2}) + (() if first_other else ('other-report',))
+                ends = [('clear-other-report',), ('clear_report',)] if clear_other_first else [('clear_report',), ('clear-other-report',)]
+                check_override_sequence(ctx, [a, b] + ends + [('contextualize_report',)], by, snap)
+                ctx.count('override_histories_through_both_reports')
     for i in range(n):
         if ctx.time_left() < 3:
             break
